@@ -615,9 +615,48 @@ def h1_system(ctx, facts):
 
 
 # ------------------------------------------------------------------ C17-S1 (run)
+def _strip_two_column_reshape(e):
+    """X of np.reshape(X, (n, 2)) / X.reshape(n, 2) / X.reshape((n, 2)) / X.reshape(-1, 2)"""
+    for _ in range(3):
+        shape = None
+        if isinstance(e, ast.Call) and au.call_tail(e) == "reshape" and isinstance(e.func, ast.Attribute):
+            if isinstance(e.func.value, ast.Name) and e.func.value.id in ("np", "numpy") and len(e.args) == 2:
+                inner, shape = e.args[0], e.args[1]
+            elif e.args:
+                inner, shape = e.func.value, (e.args[0] if len(e.args) == 1 else ast.Tuple(elts=list(e.args), ctx=ast.Load()))
+        if shape is not None and isinstance(shape, ast.Tuple) and len(shape.elts) == 2 and au.const(shape.elts[1]) == 2:
+            e = inner
+        else:
+            break
+    return e
+
+
+def _two_columns(e):
+    """(X0, X1) when e puts two vectors side by side as the columns of a (n, 2) array"""
+    if isinstance(e, ast.Call) and au.call_tail(e) in ("column_stack", "stack", "array", "asarray", "transpose") or isinstance(e, ast.Attribute):
+        if isinstance(e, ast.Call) and au.call_tail(e) == "column_stack" and len(e.args) == 1 and isinstance(e.args[0], (ast.Tuple, ast.List)) and len(e.args[0].elts) == 2:
+            return tuple(e.args[0].elts)
+        if isinstance(e, ast.Call) and au.call_tail(e) == "stack" and len(e.args) >= 1 and isinstance(e.args[0], (ast.Tuple, ast.List)) and len(e.args[0].elts) == 2:
+            ax = e.args[1] if len(e.args) > 1 else next((k.value for k in e.keywords if k.arg == "axis"), None)
+            if ax is not None and au.const(ax) in (1, -1):
+                return tuple(e.args[0].elts)
+        rows = None
+        if isinstance(e, ast.Attribute) and e.attr == "T":
+            rows = e.value
+        elif isinstance(e, ast.Call) and au.call_tail(e) == "transpose" and not e.keywords:
+            rows = e.func.value if isinstance(e.func, ast.Attribute) and not e.args and not (isinstance(e.func.value, ast.Name) and e.func.value.id in ("np", "numpy")) \
+                else (e.args[0] if len(e.args) == 1 else None)
+        if isinstance(rows, ast.Call) and au.call_tail(rows) in ("array", "asarray", "vstack", "stack") and len(rows.args) == 1 and not rows.keywords \
+                and isinstance(rows.args[0], (ast.Tuple, ast.List)) and len(rows.args[0].elts) == 2:
+            return tuple(rows.args[0].elts)
+    return None
+
+
 def _scatter_store(ctx, facts, st, tgt, val, mode, lps, F, B, sol):
     """`self.uvs[key] = Z[v]` with Z a (|V|, 2) array filled by `Z[free] = X`, `Z[border, k] = x_k` : 'ok' | 'bad' | '?' | None (other form)"""
     fn0, fn, S = facts["fn0"], facts["fn"], facts["S"]
+    while isinstance(val, ast.Call) and au.call_tail(val) in ("Vec", "array", "asarray", "tuple") and len(val.args) == 1 and not val.keywords:
+        val = val.args[0]           # a copy of the row
     if not (isinstance(val, ast.Subscript) and isinstance(val.value, ast.Name) and isinstance(val.slice, ast.Name)):
         return None
     Z, v = val.value.id, val.slice.id
@@ -666,8 +705,13 @@ def _scatter_store(ctx, facts, st, tgt, val, mode, lps, F, B, sol):
             return "?"
         if col is None:
             # both columns at once: a two-column solution whose columns are coordinates 0, 1 in this order
-            if which == "F" and sorted(sol) == [0, 1] and all(au.same(sol[k][0], vc) and sol[k][1] == k for k in sol):
+            vc2 = _strip_two_column_reshape(vc)
+            pair = _two_columns(vc)
+            if which == "F" and sorted(sol) == [0, 1] and all(au.same(sol[k][0], vc2) and sol[k][1] == k for k in sol):
                 got[("F", 0)], got[("F", 1)] = 0, 1
+            elif pair is not None and all(_init_coord(x) is not None for x in pair):
+                # the two boundary vectors put side by side: column k holds the coordinate of pair[k]
+                got[(which, 0)], got[(which, 1)] = ("B", _init_coord(pair[0])), ("B", _init_coord(pair[1]))
             else:
                 return "?"
         else:
@@ -1111,6 +1155,10 @@ def l1_weights(ctx):
                 return new
             return e
         mv = mark(val)
+        while isinstance(mv, ast.Call) and isinstance(mv.func, ast.Name) and mv.func.id in ("tuple", "list") and len(mv.args) == 1 and not mv.keywords:
+            mv = mv.args[0]
+        if isinstance(mv, (ast.GeneratorExp, ast.ListComp)):
+            mv = mv.elt             # the weight computed for each corner
         if isinstance(mv, (ast.Tuple, ast.List, ast.GeneratorExp, ast.ListComp)):
             continue
         pl = H.poly(mv)
